@@ -27,6 +27,13 @@ func (h *verifClockHandler) HandleOpenDir(ctx *Context[verifState], path string)
 	h.done++
 	return true
 }
+// an upload: the handler drains the payload from the connection (each read of it is under the request's deadline)
+func (h *verifClockHandler) HandleWriteFile(ctx *Context[verifState], data io.Reader) (int32, error) {
+	n, _ := io.Copy(io.Discard, data)
+	h.lastDone = time.Now()
+	h.done++
+	return int32(n), nil
+}
 func (h *verifClockHandler) HandleReadDirEntry(ctx *Context[verifState]) fs.FileInfo {
 	h.lastDone = time.Now()
 	h.done++
@@ -41,8 +48,10 @@ func VerifC16_Rearm() {
 	k := verifrt.Choice("requests", 1+verifrt.Bound("C16.maxrequests", 2, 3))
 	var in []byte
 	for i := 0; i < k; i++ {
-		if verifrt.Bool("withpath") {
+		if kind := verifrt.Choice("kind", 3); kind == 0 {
 			in = append(in, verifRequest(0x122a, "/ab", nil)...)
+		} else if kind == 1 {
+			in = append(in, verifRequest(0x1229, "", []byte{1, 2, 3})...) // an upload with a 3-byte payload
 		} else {
 			in = append(in, verifRequest(0x122b, "", nil)...)
 		}
